@@ -86,6 +86,9 @@ type Frame struct {
 	defers  []*ssa.Defer
 	named   map[string]Val
 	env     *SpecEnv // entry environment (params, old)
+	order   []*ssa.BasicBlock
+	edgeOv  map[[2]int]edgeState
+	iterTag string
 }
 
 type Loop struct {
@@ -370,7 +373,7 @@ func shortFuncName(f *ssa.Function) string {
 }
 
 func (fr *Frame) site(in ssa.Instruction) string {
-	return fmt.Sprintf("%s%s#%d", fr.prefix, fr.siteKey(in), fr.ord[in])
+	return fmt.Sprintf("%s%s#%d%s", fr.prefix, fr.siteKey(in), fr.ord[in], fr.iterTag)
 }
 
 func (fr *Frame) pos(in ssa.Instruction) string {
@@ -599,6 +602,7 @@ func (fr *Frame) run(args []Val, bind []Val, memIn Mem, g *Term) {
 	fr.outG = map[*ssa.BasicBlock]*Term{}
 	fr.memOut = map[*ssa.BasicBlock]Mem{}
 	fr.edgeC = map[[2]int]*Term{}
+	fr.edgeOv = map[[2]int]edgeState{}
 	if fr.cells == nil {
 		fr.cells = map[ssa.Value]*Cell{}
 	}
@@ -615,7 +619,12 @@ func (fr *Frame) run(args []Val, bind []Val, memIn Mem, g *Term) {
 	}
 	// reverse post-order ignoring back edges
 	order := fr.rpo()
+	fr.order = order
+	done := map[*ssa.BasicBlock]bool{}
 	for _, b := range order {
+		if done[b] {
+			continue
+		}
 		var gs []*Term
 		var ms []Mem
 		var preds []*ssa.BasicBlock
@@ -623,65 +632,274 @@ func (fr *Frame) run(args []Val, bind []Val, memIn Mem, g *Term) {
 			gs, ms = []*Term{g}, []Mem{memIn}
 			preds = []*ssa.BasicBlock{nil}
 		}
-		for _, p := range b.Preds {
-			if fr.backEdg[[2]int{p.Index, b.Index}] {
+		g2, m2, p2 := fr.predStates(b, nil)
+		gs, ms, preds = append(gs, g2...), append(ms, m2...), append(preds, p2...)
+		if lp := fr.loopOf[b]; lp != nil && fr.unrollCount(lp) > 0 {
+			fr.unrollLoop(lp, gs, ms, preds, done)
+			continue
+		}
+		fr.processBlock(b, gs, ms, preds, nil)
+	}
+	_ = ex
+}
+
+// predStates collects the states flowing into b over forward edges (optionally restricted to a loop).
+func (fr *Frame) predStates(b *ssa.BasicBlock, within *Loop) (gs []*Term, ms []Mem, preds []*ssa.BasicBlock) {
+	for _, p := range b.Preds {
+		if fr.backEdg[[2]int{p.Index, b.Index}] {
+			continue
+		}
+		if within != nil && !within.Blocks[p] {
+			continue
+		}
+		if ov, ok := fr.edgeOv[[2]int{p.Index, b.Index}]; ok {
+			gs = append(gs, ov.g)
+			ms = append(ms, ov.mem)
+			preds = append(preds, p)
+			continue
+		}
+		og, ok := fr.outG[p]
+		if !ok {
+			continue // unreachable predecessor
+		}
+		eg := And(og, fr.edgeCond(p, b))
+		gs = append(gs, eg)
+		ms = append(ms, fr.memOut[p])
+		preds = append(preds, p)
+	}
+	return
+}
+
+type edgeState struct {
+	g   *Term
+	mem Mem
+}
+
+func (fr *Frame) unrollCount(lp *Loop) int {
+	if fr.con != nil {
+		return fr.con.Unroll[lp.Ord]
+	}
+	return 0
+}
+
+// processBlock executes one block from the merged entry states.  phiOv, when
+// non-nil, supplies the values of the block's phis (unrolled loop headers).
+func (fr *Frame) processBlock(b *ssa.BasicBlock, gs []*Term, ms []Mem, preds []*ssa.BasicBlock, phiOv map[*ssa.Phi]Val) {
+	ex := fr.ex
+	if len(gs) == 0 {
+		delete(fr.outG, b)
+		return
+	}
+	bg := Or(gs...)
+	if bg.IsFalse() {
+		delete(fr.outG, b)
+		return
+	}
+	fr.mem = mergeMem(gs, ms).clone()
+	fr.cur = bg
+	fr.guard[b] = bg
+	lp := fr.loopOf[b]
+	for _, in := range b.Instrs {
+		phi, ok := in.(*ssa.Phi)
+		if !ok {
+			break
+		}
+		if phiOv != nil {
+			fr.vals[phi] = phiOv[phi]
+			continue
+		}
+		var vs []Val
+		for _, p := range preds {
+			for k, pp := range b.Preds {
+				if pp == p {
+					vs = append(vs, fr.get(phi.Edges[k]))
+					break
+				}
+			}
+		}
+		fr.vals[phi] = mergeVals(gs, vs)
+	}
+	if lp != nil && phiOv == nil {
+		if !fr.enterLoop(lp, b) {
+			ex.oos("%s: loop#%d has no invariant and cannot be unrolled", shortName(fr.fn.String()), lp.Ord)
+			fr.outG[b] = TFalse
+			return
+		}
+	}
+	fr.execBlock(b)
+	fr.outG[b] = fr.cur
+	fr.memOut[b] = fr.mem
+	for _, s := range b.Succs {
+		if fr.backEdg[[2]int{b.Index, s.Index}] {
+			if l2 := fr.loopOf[s]; fr.unrollCount(l2) == 0 {
+				fr.closeLoop(l2, b)
+			}
+		}
+	}
+}
+
+// unrollLoop executes a loop with a constant trip count by full unrolling
+// (complete, not bounded: the obligation `unroll-bound` shows that no further
+// iteration is possible).
+func (fr *Frame) unrollLoop(lp *Loop, gs []*Term, ms []Mem, preds []*ssa.BasicBlock, done map[*ssa.BasicBlock]bool) {
+	ex := fr.ex
+	n := fr.unrollCount(lp)
+	h := lp.Header
+	var loopOrder []*ssa.BasicBlock
+	for _, b := range fr.order {
+		if lp.Blocks[b] {
+			loopOrder = append(loopOrder, b)
+			done[b] = true
+		}
+	}
+	phis := fr.headerPhis(lp)
+	// entry phi values
+	phiVals := map[*ssa.Phi]Val{}
+	for _, phi := range phis {
+		var vs []Val
+		for _, p := range preds {
+			for k, pp := range h.Preds {
+				if pp == p {
+					vs = append(vs, fr.get(phi.Edges[k]))
+					break
+				}
+			}
+		}
+		phiVals[phi] = mergeVals(gs, vs)
+	}
+	iterGs, iterMs := gs, ms
+	type exitRec struct {
+		g   *Term
+		mem Mem
+	}
+	exits := map[[2]int][]exitRec{}
+	type snap struct {
+		g    *Term
+		vals map[ssa.Value]Val
+	}
+	var snaps []snap
+	name := fmt.Sprintf("%sloop#%d", fr.prefix, lp.Ord)
+	for j := 0; j <= n; j++ {
+		if len(iterGs) == 0 || Or(iterGs...).IsFalse() {
+			break
+		}
+		fr.iterTag = fmt.Sprintf("@it%d", j)
+		for _, b := range loopOrder {
+			if b == h {
+				fr.processBlock(b, iterGs, iterMs, nil, phiVals)
+				continue
+			}
+			if l2 := fr.loopOf[b]; l2 != nil && fr.unrollCount(l2) > 0 && l2 != lp {
+				ex.oos("%s: nested unrolled loops are not supported", shortName(fr.fn.String()))
+				continue
+			}
+			g2, m2, p2 := fr.predStates(b, lp)
+			fr.processBlock(b, g2, m2, p2, nil)
+		}
+		// exits of this iteration
+		var exitG []*Term
+		for _, p := range loopOrder {
+			og, ok := fr.outG[p]
+			if !ok {
+				continue
+			}
+			for _, s := range p.Succs {
+				if lp.Blocks[s] {
+					continue
+				}
+				eg := And(og, fr.edgeCond(p, s))
+				if eg.IsFalse() {
+					continue
+				}
+				k := [2]int{p.Index, s.Index}
+				exits[k] = append(exits[k], exitRec{eg, fr.memOut[p]})
+				exitG = append(exitG, eg)
+			}
+		}
+		if len(exitG) > 0 {
+			sv := snap{g: Or(exitG...), vals: map[ssa.Value]Val{}}
+			for _, b := range loopOrder {
+				for _, in := range b.Instrs {
+					if v, ok := in.(ssa.Value); ok {
+						if x, ok := fr.vals[v]; ok {
+							sv.vals[v] = x
+						}
+					}
+				}
+			}
+			snaps = append(snaps, sv)
+		}
+		// back edges: state of the next iteration
+		var ngs []*Term
+		var nms []Mem
+		var nps []*ssa.BasicBlock
+		for _, p := range h.Preds {
+			if !fr.backEdg[[2]int{p.Index, h.Index}] {
 				continue
 			}
 			og, ok := fr.outG[p]
 			if !ok {
-				continue // unreachable predecessor
+				continue
 			}
-			eg := And(og, fr.edgeCond(p, b))
-			gs = append(gs, eg)
-			ms = append(ms, fr.memOut[p])
-			preds = append(preds, p)
-		}
-		if len(gs) == 0 {
-			continue
-		}
-		bg := Or(gs...)
-		if bg.IsFalse() {
-			continue
-		}
-		fr.mem = mergeMem(gs, ms).clone()
-		fr.cur = bg
-		fr.guard[b] = bg
-		// phis
-		lp := fr.loopOf[b]
-		for _, in := range b.Instrs {
-			phi, ok := in.(*ssa.Phi)
-			if !ok {
-				break
+			eg := And(og, fr.edgeCond(p, h))
+			if eg.IsFalse() {
+				continue
 			}
+			ngs, nms, nps = append(ngs, eg), append(nms, fr.memOut[p]), append(nps, p)
+		}
+		next := map[*ssa.Phi]Val{}
+		for _, phi := range phis {
 			var vs []Val
-			for _, p := range preds {
-				for k, pp := range b.Preds {
+			for _, p := range nps {
+				for k, pp := range h.Preds {
 					if pp == p {
 						vs = append(vs, fr.get(phi.Edges[k]))
 						break
 					}
 				}
 			}
-			fr.vals[phi] = mergeVals(gs, vs)
-		}
-		if lp != nil {
-			if !fr.enterLoop(lp, b) {
-				ex.oos("%s: loop#%d has no invariant and cannot be unrolled", shortName(fn.String()), lp.Ord)
-				fr.outG[b] = TFalse
-				continue
+			if len(vs) > 0 {
+				next[phi] = mergeVals(ngs, vs)
 			}
 		}
-		fr.execBlock(b)
-		fr.outG[b] = fr.cur
-		fr.memOut[b] = fr.mem
-		// back edges leaving this block
-		for _, s := range b.Succs {
-			if fr.backEdg[[2]int{b.Index, s.Index}] {
-				fr.closeLoop(fr.loopOf[s], b)
+		phiVals = next
+		iterGs, iterMs = ngs, nms
+	}
+	fr.iterTag = ""
+	if len(iterGs) > 0 && !Or(iterGs...).IsFalse() {
+		// the loop must have terminated after n iterations of its body
+		ex.oblige(name+"/unroll-bound", "unroll", ex.P.Pos(lp.Pos), TTrue, Not(Or(iterGs...)))
+	}
+	// publish merged exit states
+	for k, recs := range exits {
+		var g []*Term
+		var m []Mem
+		for _, r := range recs {
+			g = append(g, r.g)
+			m = append(m, r.mem)
+		}
+		fr.edgeOv[k] = edgeState{Or(g...), mergeMem(g, m)}
+	}
+	// values defined in the loop and used after it: select by the iteration that exited
+	if len(snaps) > 0 {
+		keys := map[ssa.Value]bool{}
+		for _, sv := range snaps {
+			for v := range sv.vals {
+				keys[v] = true
 			}
+		}
+		for v := range keys {
+			var g []*Term
+			var vs []Val
+			for _, sv := range snaps {
+				if x, ok := sv.vals[v]; ok {
+					g = append(g, sv.g)
+					vs = append(vs, x)
+				}
+			}
+			fr.vals[v] = mergeVals(g, vs)
 		}
 	}
-	_ = ex
 }
 
 func (fr *Frame) rpo() []*ssa.BasicBlock {
